@@ -21,7 +21,7 @@ from . import markers, sym
 FUEL_DEFAULT = 400
 
 
-class OutOfFuel(sym.EngineSignal):
+class OutOfFuel(sym.Outside):
     pass
 
 
@@ -397,8 +397,17 @@ def equivalent(eng, before, after, *, fuel=FUEL_DEFAULT, info=None, compare_exce
     if s1 != "ok":
         if not compare_exceptions:
             return "outside"
-    s2, t2, e2 = run_program(after, fuel=fuel)
     base = dict(info or {})
+    try:
+        s2, t2, e2 = run_program(after, fuel=fuel)
+    except OutOfFuel:
+        # the original terminated within the fuel, the refactored program did not (3x margin re-checked below)
+        try:
+            s2, t2, e2 = run_program(after, fuel=3 * fuel + 50)
+        except OutOfFuel:
+            base.update({"failure": "timeout"})
+            eng.claim(False, info=base)
+            return False
     if s1 == "ok" and s2 != "ok":
         base.update({"failure": "raises:%s" % type(e2).__name__, "exception": repr(e2)[:200]})
         eng.claim(False, info=base)
